@@ -573,6 +573,7 @@ namespace bloch::runtime {
 #endif
         m_functions.clear();
         m_env.clear();
+        m_frameBases.clear();
         m_measurements.clear();
         m_trackedCounts.clear();
         m_echoBuffer.clear();
@@ -648,9 +649,11 @@ namespace bloch::runtime {
     }
 
     Value RuntimeEvaluator::lookup(const std::string& name) {
-        for (auto it = m_env.rbegin(); it != m_env.rend(); ++it) {
-            auto fit = it->find(name);
-            if (fit != it->end())
+        // Only the scopes of the body being executed are searched: a callee never sees the
+        // locals of whichever function happens to be calling it.
+        for (size_t i = m_env.size(); i-- > frameBase();) {
+            auto fit = m_env[i].find(name);
+            if (fit != m_env[i].end())
                 return fit->second.value;
         }
         std::shared_ptr<Object> thisObj = currentThisObject();
@@ -684,9 +687,10 @@ namespace bloch::runtime {
     }
 
     void RuntimeEvaluator::assign(const std::string& name, const Value& v) {
-        for (auto it = m_env.rbegin(); it != m_env.rend(); ++it) {
-            auto fit = it->find(name);
-            if (fit != it->end()) {
+        for (size_t i = m_env.size(); i-- > frameBase();) {
+            auto& scope = m_env[i];
+            auto fit = scope.find(name);
+            if (fit != scope.end()) {
                 Value newVal = widenTo(fit->second.value.type, v);
                 if (fit->second.value.type == Value::Type::Object &&
                     newVal.type == Value::Type::Object && newVal.objectValue &&
@@ -730,9 +734,9 @@ namespace bloch::runtime {
     }
 
     std::shared_ptr<Object> RuntimeEvaluator::currentThisObject() const {
-        for (auto it = m_env.rbegin(); it != m_env.rend(); ++it) {
-            auto found = it->find("this");
-            if (found != it->end() && found->second.value.objectValue)
+        for (size_t i = m_env.size(); i-- > frameBase();) {
+            auto found = m_env[i].find("this");
+            if (found != m_env[i].end() && found->second.value.objectValue)
                 return found->second.value.objectValue;
         }
         return {};
@@ -1241,7 +1245,9 @@ namespace bloch::runtime {
             m_currentClassCtx = cls;
             slot = defaultValueForField(field, cls->name);
             if (field.hasInitializer && field.initializer) {
+                beginFrame();
                 slot = widenTo(field.type.kind, eval(field.initializer));
+                endFrame();
             }
             m_inStaticContext = prevStatic;
             m_currentClassCtx = prevClass;
@@ -1408,7 +1414,7 @@ namespace bloch::runtime {
                 m_inStaticContext = false;
                 m_inConstructor = false;
                 m_inDestructor = true;
-                beginScope();
+                beginFrame();
                 Value thisVal;
                 thisVal.type = Value::Type::Object;
                 thisVal.objectValue = std::shared_ptr<Object>(obj, [](Object*) {});
@@ -1419,7 +1425,7 @@ namespace bloch::runtime {
                     if (m_hasReturn)
                         break;
                 }
-                endScope();
+                endFrame();
                 m_inDestructor = prevDtor;
                 m_inConstructor = prevCtor;
                 m_inStaticContext = prevStatic;
@@ -1474,7 +1480,7 @@ namespace bloch::runtime {
                 bool prevStatic = m_inStaticContext;
                 m_currentClassCtx = cls;
                 m_inStaticContext = false;
-                beginScope();
+                beginFrame();
                 Value thisVal;
                 thisVal.type = Value::Type::Object;
                 thisVal.objectValue = obj;
@@ -1482,7 +1488,7 @@ namespace bloch::runtime {
                 m_env.back()["this"] = {thisVal, false, true};
                 Value init = eval(field.initializer);
                 slot = widenTo(field.type.kind, init);
-                endScope();
+                endFrame();
                 m_currentClassCtx = prevClass;
                 m_inStaticContext = prevStatic;
             }
@@ -1512,7 +1518,7 @@ namespace bloch::runtime {
         m_inStaticContext = false;
         m_inConstructor = true;
         m_inDestructor = false;
-        beginScope();
+        beginFrame();
         Value thisVal;
         thisVal.type = Value::Type::Object;
         thisVal.objectValue = obj;
@@ -1629,7 +1635,7 @@ namespace bloch::runtime {
         }
 
         m_returnValue = {};  // a constructor's 'return this;' must not pin the new object
-        endScope();
+        endFrame();
         m_currentClassCtx = prevClass;
         m_inStaticContext = prevStatic;
         m_inConstructor = prevCtor;
@@ -1650,7 +1656,7 @@ namespace bloch::runtime {
         m_inStaticContext = method->isStatic;
         m_inConstructor = false;
         m_inDestructor = false;
-        beginScope();
+        beginFrame();
         if (!method->isStatic) {
             Value thisVal;
             thisVal.type = Value::Type::Object;
@@ -1674,7 +1680,7 @@ namespace bloch::runtime {
         }
         Value ret = widenTo(method->decl->returnType.get(), m_returnValue);
         m_returnValue = {};  // consumed: the slot must not keep a returned object alive
-        endScope();
+        endFrame();
         m_hasReturn = prevReturn;
         m_currentClassCtx = prevClass;
         m_inStaticContext = prevStatic;
@@ -1685,7 +1691,7 @@ namespace bloch::runtime {
 
     Value RuntimeEvaluator::call(FunctionDeclaration* fn, const std::vector<Value>& args) {
         // Bind parameters, run the body until a return is hit, then unwind.
-        beginScope();
+        beginFrame();
         for (size_t i = 0; i < fn->params.size() && i < args.size(); ++i) {
             m_env.back()[fn->params[i]->name] = {widenTo(fn->params[i]->type.get(), args[i]), false,
                                                  true};
@@ -1702,7 +1708,7 @@ namespace bloch::runtime {
         }
         Value ret = widenTo(fn->returnType.get(), m_returnValue);
         m_returnValue = {};  // consumed: the slot must not keep a returned object alive
-        endScope();
+        endFrame();
         m_hasReturn = prevReturn;
         return ret;
     }
@@ -2930,6 +2936,9 @@ namespace bloch::runtime {
                 } else if (target.type == Value::Type::ClassRef && target.classRef) {
                     staticCls = target.classRef;
                     method = findMethod(staticCls, member->member, &args);
+                    // super.m(...): the base version runs on the current object.
+                    if (viaSuper && method && !method->isStatic)
+                        receiver = currentThisObject();
                 } else if (target.type == Value::Type::ClassRef && !target.classRef &&
                            !target.className.empty()) {
                     // Static call on a generic template (e.g., List.of(x)) — attempt to
@@ -3290,6 +3299,17 @@ namespace bloch::runtime {
     }
 
     void RuntimeEvaluator::beginScope() { m_env.push_back({}); }
+
+    void RuntimeEvaluator::beginFrame() {
+        m_frameBases.push_back(m_env.size());
+        beginScope();
+    }
+
+    void RuntimeEvaluator::endFrame() {
+        endScope();
+        if (!m_frameBases.empty())
+            m_frameBases.pop_back();
+    }
 
     void RuntimeEvaluator::endScope() {
         if (m_env.empty())
